@@ -47,10 +47,14 @@ var hookOnce sync.Once
 func installHooks() {
 	hookOnce.Do(func() {
 		verifhook.Register(func(name string, args ...interface{}) {
-			if name != "handler.command" && name != "handler.shutdown" {
+			if name != "handler.command" && name != "handler.shutdown" && name != "limiter.enter" && name != "limiter.released" {
 				return
 			}
 			key := fmt.Sprintf("%p", args[0])
+			if name == "limiter.enter" || name == "limiter.released" {
+				// the file is still being read by a counted command at this moment
+				name = "file:" + fmt.Sprint(args[1])
+			}
 			if name == "handler.command" && len(args) > 1 && fmt.Sprint(args[1]) == ".ack" {
 				return // the client's acknowledgement of the close is not a read command
 			}
@@ -190,16 +194,27 @@ func init() {
 		late := false
 		sawShutdown := false
 		lateFrom := 0 // number of commands counted before the counter first returned to 0
+		// shutdown() is only entered when the counter has returned to 0, i.e. when every command counted
+		// so far has finished; a file that enters the limiter or is released after that moment belongs
+		// to a command that was counted later (the hook in shutdown() fires a log call after the
+		// decrement, so the order of the two "handler" events alone can miss it)
+		lateFiles := []string{}
 		for _, e := range events {
-			if e == "handler.shutdown" {
+			switch {
+			case e == "handler.shutdown":
 				sawShutdown = true
-			} else if sawShutdown {
+			case strings.HasPrefix(e, "file:"):
+				if sawShutdown {
+					late = true
+					lateFiles = append(lateFiles, e[5:])
+				}
+			case sawShutdown:
 				late = true // a command was counted after the counter had returned to 0
-			} else {
+			default:
 				lateFrom++
 			}
 		}
 		return map[string]interface{}{"frames": frames, "syn": acked, "closed": closed, "zero_before_cmd": zeroBefore,
-			"late_command": late, "late_from": lateFrom, "events": events}, nil
+			"late_command": late, "late_from": lateFrom, "late_files": lateFiles, "events": events}, nil
 	}
 }
